@@ -4,7 +4,7 @@ The structural rules are anchored in named functions ("s_alloc_tracer_track inse
 a block of such a function into a new `static` helper - the most common behaviour-preserving refactoring - moves the
 anchored statements into a function no rule has heard of.  This pass makes such helpers transparent: a call of a function
 that
-  * has internal linkage and is defined in a .c file of the same translation unit,
+  * has internal linkage and is defined in a .c file of the same translation unit (or is a `static inline` s_* helper of a header),
   * is not mentioned by name in any rule module (rules/*.py, sa/*.py: collected from their source text),
   * is not recursive, is never used as a value (address taken / stored in a table), and is small enough,
 is replaced, in the caller's CFG, by the callee's blocks: parameters become local declarations initialised with the
@@ -115,7 +115,11 @@ def transparent_helpers(functions, globals_=None, types=None):
         if len(defs) != 1:
             continue
         fj = defs[0]
-        if not fj.get("static") or not fj.get("blocks") or not str(fj.get("file", "")).endswith(".c"):
+        if not fj.get("static") or not fj.get("blocks"):
+            continue
+        # private helpers: internal linkage in a .c file, or a `static inline` of a header that carries the repository's
+        # prefix for private functions (s_) - the aws_* inline functions of the headers are the public API
+        if not (str(fj.get("file", "")).endswith(".c") or name.startswith("s_")):
             continue
         if name in anchors or ("s_" + name) in anchors or name in used_as_value or name in in_tables or name not in callers:
             continue
